@@ -34,29 +34,43 @@ WHAT = {
     "c19-cancel": "cancel of a queued send did not remove it / cancel of a dispatched send did more than detach",
     "c19-detach": "after a send was cancelled late (after dispatch) a batch resolved while another of its sends had not fired: the cancel did more than detach its caller",
     "c19-stop": "stop() left a send outstanding, failed it with a non-cancellation error, or something was transmitted in/after stop()",
+    "reentrant-tx-after-stop": "a produce or metadata request was issued after a stop() made by a callback of a send Deferred had returned",
+    "success-never-sent": "a send Deferred succeeded although no produce request ever carried the send (ground truth of the scripted harness; with re-entrant callbacks the flat truthfulness monitor is not evaluated)",
     "c19-schedule": "the batch_every_t looping call did not tick on its schedule (start+k*T, late calls collapsed, never while not due / stopped), or something else ran while a tick was overdue",
 }
 CORPUS = os.path.join(core.VERIF, "corpus", "producer")
 TRUSTED = [
-    "the Producer is modelled against the client INTERFACE (ClientIface, harness/lib/client_iface.md): the composition Producer x KafkaClient is by contract, checked on the code by the full-stack stage, not one Lean theorem",
+    "the Producer is modelled against the client INTERFACE (ClientIface, harness/lib/client_iface.md): the composition Producer x KafkaClient is by contract (in Lean only the produce-result kernel is composed, C09_composed_retry_only_failed); on the code it is checked by the full-stack stage: ground-truth monitors and replay of the Producer/KafkaClient boundary trace to the model (harness/lib/producer_fstrace.py: a recording proxy, trusted to be transparent)",
     "fake client of the scripted environment (harness/lib/producer_fakeclient.py) and its reproduction of the real client's cancel outcomes",
     "Twisted Deferred/inlineCallbacks/DeferredList/LoopingCall semantics as folded into the model's handlers; timers are abstract (set/fire), 'timers fire when due' is assumed",
     "snapshots of the real Producer's private bookkeeping fields (_batch_reqs, _waitingMsgCount, ...) read after every event",
 ]
 ASSUMPTIONS = {
     "C01": ["the client names only payloads of the request in its result, each at most once (C07); 'fires when the batch resolves' additionally assumes the client accounts for every payload (C07 accounting)",
-            "no re-entrant calls into the Producer from callbacks of the send Deferreds"],
+            "re-entrant calls into the Producer from callbacks of send Deferreds are modelled (Afkak/ProducerR.lean) and compared with the code, but the flat trace theorems are claimed for traces without such callbacks only"],
     "C09": ["as C01; send ids stand for submission order", "one-batch-in-flight is checked through 'every send of earlier requests has fired', which assumes C07 accounting"],
     "C19": ["as C01; time bounds are in model time (reactor latency not modelled)",
             "the client's answer to a cancel during stop() is one of ClientIface's cancel outcomes"],
 }
 
 
+REENTRANT_MONITORS = ["c01-once"]
+
+
+def has_hooks(real):
+    return any(s[0].startswith("sendh ") for s in real.steps)
+
+
 def trace_lines(real, monitors):
+    """The implementation trace for the monitors.  A trace with re-entrant callbacks (hooks) is flattened: the hook
+    markers are dropped and `sendh` reads `send`; only monitors that do not depend on the atomicity of a step are
+    evaluated on it (the flat monitors are theorems of the flat model)."""
     tl = ["reset", D.cfg_line(real.cfg), "trace-begin"]
     for (line, obs, st) in real.steps:
+        if line.startswith("sendh "):
+            line = "send " + " ".join(line.split(" ")[1:5])
         tl.append("> " + line)
-        tl += obs
+        tl += [o for o in obs if not (o.startswith("hookbegin ") or o == "hookend")]
         tl.append(st)
     tl.append("trace-end " + " ".join(monitors))
     return tl
@@ -73,13 +87,14 @@ def evaluate(pid, runs, model=core.run_model, monitors=None):
         n = len(real.steps) + 2
         out.append([scn, real, D.diff(real, ans[k:k + n]), []])
         k += n
-    tl, ends = [], []
-    mons = MONITORS[pid] if monitors is None else monitors
+    tl, ends, used = [], [], []
     for scn, real, _d, _f in out:
+        mons = (MONITORS[pid] if monitors is None else monitors) if not has_hooks(real) else REENTRANT_MONITORS
+        used.append(mons)
         tl += trace_lines(real, mons)
         ends.append(len(tl) - 1)
     ans2 = model("producer", tl) if tl else []
-    for item, e in zip(out, ends):
+    for item, e, mons in zip(out, ends, used):
         real = item[1]
         got = ans2[e]
         if got == ["bad-op"] or len(got) != len(mons):
@@ -87,6 +102,10 @@ def evaluate(pid, runs, model=core.run_model, monitors=None):
             item[3] = ["c01-payloads"] if (odd and pid == "C01") else ([] if odd else ["trace-unparseable"])
         else:
             item[3] = [l.split(" ")[0] for l in got if not l.endswith(" ok")]
+        if getattr(real, "tx_after_stop", None):
+            item[3].append("reentrant-tx-after-stop")
+        if getattr(real, "success_never_sent", None):
+            item[3].append("success-never-sent")
     return out
 
 
